@@ -169,7 +169,11 @@ impl std::fmt::Display for LintError {
                 write!(
                     f,
                     "Part of multiple functions: {}",
-                    funcs.iter().map(|fun| fun.name().to_string()).join(" | ")
+                    funcs
+                        .iter()
+                        .map(|fun| fun.name().to_string())
+                        .sorted()
+                        .join(" | ")
                 )
             }
         }
